@@ -102,6 +102,8 @@ def arbitrary(rnd, spec):
                     t["formula"] = t["formula"] + " + k0"
                 continue
             t["params"] = [p * (1 + rnd.uniform(-1e-4, 1e-4)) + rnd.uniform(-1e-3, 1e-3) if (math.isfinite(p) and rnd.random() < 0.7) else p for p in t["params"]]
+            if t["cls"] in ("Constant", "Linear", "Gaussian", "Bell", "Spike", "Sigmoid", "Cosine") and rnd.random() < 0.15:
+                t["params"][0] = -0.0  # negative zero must keep its sign
             if t["cls"] in ("PiShape", "Trapezoid", "Triangle", "Discrete", "Rectangle", "SShape", "ZShape"):
                 # keep the ordering constraints of the vertices
                 if t["cls"] == "Discrete":
@@ -116,7 +118,7 @@ def arbitrary(rnd, spec):
         v["description"] = rnd.choice(["", "it's \"quoted\"", "back\\slash", "a 'single' quote", "tab\tand unicode é", "a long description that goes well beyond the thirty characters reprlib keeps by default, " * 2])
     for o in s["outputs"]:
         if not math.isnan(o["default_value"]):
-            o["default_value"] = o["default_value"] + rnd.uniform(-1e-5, 1e-5)
+            o["default_value"] = o["default_value"] + rnd.uniform(-1e-5, 1e-5) if rnd.random() < 0.8 else -0.0
     s["description"] = rnd.choice(["", "engine's \"description\""])
     return s
 
